@@ -11,6 +11,11 @@ Monitor, on the IMPLEMENTATION's observations only (previous vs. current observa
   rejoined-stuck-leaving  a join intent about a member that memberlist reports up is ignored because its Lamport
                         time EQUALS the status time set by the artificial leave intent of a merge (stale LeftMembers
                         entry of a peer, time StatusLTimes+1): the running member stays `leaving`   — recorded finding
+  stale-buffered-intent-applied  a join / leave intent about a member that is not listed yet, whose Lamport time is
+                        not newer than the intent already buffered for it, replaced the buffered intent or was re-queued
+  join-ignores-buffered-intent  memberlist announces a not-yet-listed member: its status / status time are not those of
+                        the newest intent delivered for it while unlisted (leave ⇒ leaving, join ⇒ alive, at that time;
+                        alive at 0 when nothing is buffered)
   merge-stale-applied   same, for an entry of a push/pull merge (left member ⇒ leave at t+1, else join at t)
 -/
 namespace SerfModel.Check.C02
@@ -23,6 +28,9 @@ structure St where
   /-- monitor: members that a merge's artificial leave intent (LeftMembers entry, time StatusLTimes+1)
   turned from alive to leaving while memberlist reports them up, with that artificial time -/
   artLeave : List (Name × Nat) := []
+  /-- monitor: for members not (yet) listed, the newest intent delivered while unlisted — (isLeave, time);
+  a later intent replaces it only when strictly newer; forgotten when the node's buffered intent is reaped -/
+  best : List (Name × Bool × Nat) := []
   deriving Inhabited
 
 def monotone (prev cur : Obs) : Option (String × String) :=
@@ -61,6 +69,56 @@ def stale (prev cur : Obs) (h : HOp) : Option (String × String) :=
       | _ => none)
   | _ => none
 
+/-- the intents (name, isLeave, time) a harness op delivers, in processing order -/
+def deliveredIntents (prev : Obs) : HOp → List (Name × Bool × Nat)
+  | .ops [.forceLeave x _ _] => [(x, true, prev.clock)]      -- local force-leave: claim at the clock
+  | .ops [.ownJoin _] => [(selfName, false, prev.clock)]
+  | .leave _ => if prev.life == "alive" then [(selfName, true, prev.clock)] else []
+  | .ops [.joinMsg x t _] => [(x, false, t)]
+  | .ops [.leaveMsg x t _ _] => [(x, true, t)]
+  | .ops [.merge _ status left _] =>
+    left.map (fun x => (x, true, (((alookup status x).getD 0) + 1) % two64)) ++
+    (status.filter (fun p => !left.contains p.1)).map (fun p => (p.1, false, p.2))
+  | _ => []
+
+/-- newest-wins bookkeeping for members that are not listed: strictly newer replaces -/
+def updBest (prev : Obs) (best : List (Name × Bool × Nat)) (i : Name × Bool × Nat) : List (Name × Bool × Nat) :=
+  if prev.knows i.1 then best else
+  match alookup best i.1 with
+  | some b => if b.2 < i.2.2 then ainsert best i.1 i.2 else best
+  | none => ainsert best i.1 i.2
+
+/-- a stale intent about an unlisted member must leave the buffered intent alone and not be re-queued -/
+def staleBuffered (prev cur : Obs) (h : HOp) : Option (String × String) :=
+  match h with
+  | .ops [op] =>
+    (match op.msg? with
+    | some m =>
+      if prev.knows m.node || cur.knows m.node then none else
+      (match prev.intents.find? (·.1 == m.node) with
+      | some b =>
+        if m.ltime ≤ b.2.2 && (cur.intents.find? (·.1 == m.node) != some b || cur.queue.contains m) then
+          some ("stale-buffered-intent-applied", s!"intent {Msg.str m} is not newer than the buffered intent at time {b.2.2} for {m.node} but replaced it or was re-queued")
+        else none
+      | none => none)
+    | none => none)
+  | _ => none
+
+/-- what memberlist's announcement of an unlisted member must produce -/
+def joinFromBuffer (best : List (Name × Bool × Nat)) (prev cur : Obs) (h : HOp) : Option (String × String) :=
+  match h with
+  | .ops [.nodeJoin x] =>
+    if prev.knows x then none else
+    let want : Status × Nat :=
+      match prev.intents.find? (·.1 == x), alookup best x with
+      | some _, some b => (if b.1 then .leaving else .alive, b.2)   -- an intent is still buffered: the newest one delivered decides
+      | some b, none => (if b.2.1 then .leaving else .alive, b.2.2)
+      | none, _ => (.alive, 0)
+    if cur.statusOf x != some want.1 || cur.ltimeOf x != some want.2 then
+      some ("join-ignores-buffered-intent", s!"{x} announced by memberlist: expected {Status.str want.1} at time {want.2} (newest intent delivered while it was not listed), the node lists {(cur.statusOf x).map Status.str} at {cur.ltimeOf x}")
+    else none
+  | _ => none
+
 def step (s : St) (f : List String) (impl : String) : LineOut St :=
   let (n', out, h) := modelLine s.base.node f
   match h with
@@ -90,8 +148,11 @@ def step (s : St) (f : List String) (impl : String) : LineOut St :=
             some ("rejoined-stuck-leaving", s!"join intent of {x} at time {t} ignored: a merge's artificial leave already set status time {t}; memberlist reports {x} up, the node lists it as leaving")
           else none
         | _ => none
-      { state := { base := { node := n', prev := o }, mlUp := mlUp, artLeave := art }, model := some out,
-        monitor := firstSome [stuck, monotone prev o, stale prev o h] }
+      -- buffered-intent bookkeeping: newest delivered intent per unlisted member; forgotten when the node's buffer entry was reaped
+      let best0 := (deliveredIntents prev h).foldl (updBest prev) s.best
+      let best := best0.filter fun e => !((prev.intents.find? (·.1 == e.1)).isSome && (o.intents.find? (·.1 == e.1)).isNone)
+      { state := { base := { node := n', prev := o }, mlUp := mlUp, artLeave := art, best := best }, model := some out,
+        monitor := firstSome [stuck, monotone prev o, stale prev o h, staleBuffered prev o h, joinFromBuffer s.best prev o h] }
 
 def checker : Checker := { σ := St, init := {}, step := step }
 
